@@ -68,7 +68,9 @@ def size_grid(cls, tier):
                 out.append(s)
             out += list(itertools.permutations((2, 3, 4)))
             out += [(4, 4, 4), (2, 2, 4), (4, 2, 2), (2, 4, 2), (4, 4, 2), (2, 4, 4), (4, 2, 4),
-                    (2, 2, 5), (3, 2, 5)]
+                    (2, 2, 5), (3, 2, 5),
+                    # each axis reaching 5 with the other two different (hole / boundary ranges written with the wrong axis)
+                    (2, 5, 3), (5, 2, 3), (3, 5, 4)]
         else:
             B = 4
             for s in itertools.product(range(1, B + 1), repeat=3):
@@ -86,14 +88,32 @@ def size_grid(cls, tier):
     return res
 
 
-def instances(tier, only=None):
+# sizes beyond the common grid, dumped for C01 only (--extra): HollowRhombicCode lattices whose hole is large enough to
+# matter (known finding D17 lives there)
+EXTRA = {'c01': {'HollowRhombicCode': {'quick': [(3, 5, 3), (4, 5, 4), (3, 6, 6), (4, 6, 6)],
+                                       'thorough': [(3, 5, 3), (4, 5, 3), (4, 5, 4), (5, 5, 4), (3, 6, 4), (3, 6, 6), (4, 6, 6), (5, 4, 6), (6, 6, 4),
+                                                    (6, 4, 6), (3, 7, 7), (5, 6, 6)]},
+                 'HollowPlanar3DCode': {'quick': [(3, 5, 3), (4, 5, 4)], 'thorough': [(3, 5, 3), (4, 5, 4), (5, 5, 4), (4, 6, 5), (6, 6, 4)]}},
+         # C17: long thin lattices, where a membrane may be lighter than the listed string/sheet (known finding D18 lives there)
+         'c17': {'HollowPlanar3DCode': {'quick': [(9, 3, 3), (6, 3, 2), (7, 4, 2)], 'thorough': [(9, 3, 3), (6, 3, 2), (7, 3, 2), (7, 4, 2), (10, 3, 3), (9, 3, 4)]},
+                 'Planar3DCode': {'quick': [(7, 2, 2)], 'thorough': [(7, 2, 2), (9, 3, 3)]},
+                 'RotatedPlanar3DCode': {'quick': [(7, 2, 2)], 'thorough': [(7, 2, 2), (9, 3, 3)]},
+                 'Toric3DCode': {'quick': [(7, 2, 2)], 'thorough': [(7, 2, 2), (8, 3, 3)]},
+                 'XCubeCode': {'quick': [(6, 2, 2)], 'thorough': [(6, 2, 2), (7, 3, 2)]},
+                 'RhombicPlanarCode': {'quick': [(6, 2, 2)], 'thorough': [(6, 2, 2), (7, 3, 2)]}}}
+
+
+def instances(tier, only=None, extra=False):
     import panqec.codes as pc
     res = []
     for cls in CLASSES_2D + CLASSES_3D:
         if only and cls not in only:
             continue
         klass = getattr(pc, cls)
-        for size in size_grid(cls, tier):
+        sizes = size_grid(cls, tier)
+        if extra:
+            sizes = sizes + [s_ for s_ in EXTRA.get(extra, {}).get(cls, {}).get(tier, []) if s_ not in sizes and supported(cls, s_)]
+        for size in sizes:
             res.append((cls, size, None, None))
             for name in klass.deformation_names:
                 for ax in AXES.get(cls, [None]):
@@ -244,9 +264,21 @@ def dump_instance(args):
                 supp = rr.sample(range(n), rr.randint(1, min(n, 5)))
                 op = {qc[q]: rr.choice('XYZ') for q in supp}
                 v = code.to_bsf(dict(op))
-                back = code.from_bsf(np.array(v))
-                rts.append({'op': op_to_list(op, qindex), 'bsf': dense_row(v, n),
+                vv = np.asarray(v.toarray()).ravel() if hasattr(v, 'toarray') else np.asarray(v).ravel()
+                back = code.from_bsf(np.array(vv))
+                rts.append({'op': op_to_list(op, qindex), 'bsf': dense_row(vv, n),
                             'back': [[list(loc), pp] for loc, pp in back.items()]})
+                # the same vector in the other shapes from_bsf accepts: dense (1, 2n), csr row, list; recorded when the answer differs
+                from scipy.sparse import csr_matrix as _csr
+                for form, arg in (('dense(1,2n)', np.array(vv).reshape(1, -1)), ('csr', _csr(np.array(vv).reshape(1, -1))),
+                                  ('int64', np.array(vv, dtype='int64'))):
+                    try:
+                        b2 = code.from_bsf(arg)
+                        b2l = [[list(loc), pp] for loc, pp in b2.items()]
+                    except Exception as ex_:
+                        b2, b2l = None, [[[0] * len(qc[0]), 'EXC %s' % type(ex_).__name__]]
+                    if b2 != back:
+                        rts.append({'row': 'form:' + form, 'form': form, 'bsf': dense_row(vv, n), 'back': b2l})
             for i in rr.sample(range(Hc.shape[0]), min(Hc.shape[0], 3)):
                 back = code.from_bsf(Hc[i])
                 rts.append({'row': i, 'bsf': rows[i], 'back': [[list(loc), pp] for loc, pp in back.items()]})
@@ -276,6 +308,7 @@ def main():
     outdir, tier = sys.argv[1], sys.argv[2]
     only = None
     jobs = 16
+    extra = False
     a = sys.argv[3:]
     while a:
         if a[0] == '--only':
@@ -284,10 +317,13 @@ def main():
         elif a[0] == '--jobs':
             jobs = int(a[1])
             a = a[2:]
+        elif a[0] == '--extra':
+            extra = a[1]
+            a = a[2:]
         else:
             raise SystemExit('bad arg ' + a[0])
     os.makedirs(outdir, exist_ok=True)
-    inst = instances(tier, only)
+    inst = instances(tier, only, extra)
     with Pool(jobs) as pool:
         res = pool.map(dump_instance, [i + (outdir,) for i in inst], chunksize=4)
     with open(os.path.join(outdir, 'INDEX.json'), 'w') as f:
